@@ -236,6 +236,41 @@ pub fn sites(tier: Tier) -> Vec<Site> {
                 }
             }));
     }
+    // the same files through a reader that returns short counts (at most k bytes per read; the first 64
+    // gaps cut individually): same structure, or the same refusal, as from a plain cursor
+    {
+        let files = files.clone();
+        let small: Vec<usize> = files.iter().enumerate().filter(|(_, f)| f.bytes.len() <= 20_000).map(|(i, _)| i).collect();
+        let chunks: [usize; 7] = [1, 2, 3, 5, 7, 13, 4095];
+        let masks: [u64; 4] = [0, u64::MAX, 0x5555_5555_5555_5555, 0x8080_8080_8080_8080];
+        let per = (chunks.len() * masks.len()) as u64;
+        let n = small.len() as u64 * per;
+        sites.push(Site::new("short-reads", n,
+            "every generated file and the shipped PTH file through a reader that returns at most k bytes per read, k in {1,2,3,5,7,13,4095}, x 4 cut patterns over the first 64 bytes: result identical to a plain read",
+            move |i, acc| {
+                mark(4, i);
+                acc.eval();
+                let f = &files[small[(i / per) as usize]];
+                let k = chunks[((i % per) as usize) % chunks.len()];
+                let m = masks[((i % per) as usize) / chunks.len()];
+                let kind = if f.smx { "SMX" } else { "PTH" };
+                let plain: Result<String, String> = {
+                    let mut c = Cursor::new(&f.bytes[..]);
+                    if f.smx { Smx::read(&mut c).map(|v| format!("{v:?}")).map_err(|_| "rejected".to_string()) } else { Pth::read(&mut c).map(|v| format!("{v:?}")).map_err(|_| "rejected".to_string()) }
+                };
+                let chopped = guard(|| {
+                    let mut c = crate::choppy::Choppy::new(f.bytes.clone(), m, k);
+                    if f.smx { Smx::read(&mut c).map(|v| format!("{v:?}")).map_err(|_| "rejected".to_string()) } else { Pth::read(&mut c).map(|v| format!("{v:?}")).map_err(|_| "rejected".to_string()) }
+                });
+                let replay = json!({"site": "short-reads", "index": i, "file": f.name, "chunk": k, "cuts": format!("{m:#x}")});
+                match chopped {
+                    Err(p) => acc.violate(i, format!("C17|{kind}|short-read|panic"), format!("{}: {p}", f.name), replay),
+                    Ok(c) if c == plain => { acc.class("short-read-agrees"); acc.nontrivial(); },
+                    Ok(c) => acc.violate(i, format!("C17|{kind}|short-read|differs-from-plain-read"),
+                        format!("{} read {k} byte(s) at a time: {} ; in one piece: {}", f.name, c.unwrap_or_else(|e| e).chars().take(80).collect::<String>(), plain.unwrap_or_else(|e| e).chars().take(80).collect::<String>()), replay),
+                }
+            }));
+    }
     // every truncation point
     {
         let mut cases: Vec<(usize, usize)> = vec![];
@@ -504,7 +539,7 @@ pub fn run(tier: Tier, replay: Option<String>) -> i32 {
         Some(c @ (0 | 1)) => c,
         other => {
             // the sweep died: find the case(s) in flight and re-run each in its own process
-            let names = ["round-trip", "truncation", "substitution", "count-sweep"];
+            let names = ["round-trip", "truncation", "substitution", "count-sweep", "short-reads"];
             let raw = std::fs::read(&slots).unwrap_or_default();
             let mut pinned = 0;
             let mut tried = 0u64;
